@@ -21,6 +21,10 @@ Definition is_eq_byte (b : N) : bool := (b =? c_eq)%N.
 (* str_from_vec *)
 Definition str_ok (name : bytes) : bool := utf8_valid name.
 
+(* how many bytes the character starting with byte b takes (a stray continuation byte counts as one) *)
+Definition utf8_first_len (b : N) : nat :=
+  if (b <? 192)%N then 1 else if (b <? 224)%N then 2 else if (b <? 240)%N then 3 else 4.
+
 (* split_os_argument (unix): result (type, name bytes [valid UTF-8], attached ArgWord payload) *)
 Definition split_os_argument (input : bytes) : option (argtype * bytes * option bytes) :=
   match input with
@@ -40,14 +44,14 @@ Definition split_os_argument (input : bytes) : option (argtype * bytes * option 
       let name := second :: name_tl in
       match after with
       | Some body =>
-        match name_tl with
-        | [] => if str_ok name then Some (ATShort, name, Some body) else None
-        | _ :: _ =>
-          (* name.len() > 1: everything after the first BYTE is the value *)
-          if str_ok [second]
-          then Some (ATShort, [second], Some (name_tl ++ c_eq :: body))
-          else None
-        end
+        (* (fix: commit) the name is the first CHARACTER; when more than it stands in front of the `=`,
+           everything after it is the value *)
+        let first := Nat.min (utf8_first_len second) (length name) in
+        if Nat.ltb first (length name)
+        then if str_ok (firstn first name)
+             then Some (ATShort, firstn first name, Some (skipn first name ++ c_eq :: body))
+             else None
+        else if str_ok name then Some (ATShort, name, Some body) else None
       | None => if str_ok name then Some (ATShort, name, None) else None
       end
   | _ => None
